@@ -127,14 +127,44 @@ def trunc_real(t):
     return z3.If(t >= 0, smart_toint(t), -smart_toint(-t))
 
 
+def split_multiple(t, c: int):
+    """Try to write the int term t as c*u + d with a concrete 0 <= d < c (syntactically)."""
+    t = z3.simplify(t)
+    args = [t.arg(k) for k in range(t.num_args())] if z3.is_add(t) else [t]
+    u_parts, d = [], 0
+    for a in args:
+        if z3.is_int_value(a):
+            d += a.as_long()
+        elif z3.is_mul(a) and a.num_args() == 2 and z3.is_int_value(a.arg(0)) and a.arg(0).as_long() % c == 0:
+            u_parts.append((a.arg(0).as_long() // c) * a.arg(1))
+        else:
+            return None
+    if not u_parts:
+        return None
+    u = u_parts[0]
+    for x in u_parts[1:]:
+        u = u + x
+    return u + (d // c), d % c
+
+
 def floordiv_int(a, b):
     """Python floor division from SMT-LIB Euclidean div."""
+    if z3.is_int_value(z3.simplify(b)) and z3.simplify(b).as_long() > 0:
+        sp = split_multiple(a, z3.simplify(b).as_long())
+        if sp is not None:
+            return sp[0]
+        return a / b          # SMT-LIB div is floor division for a positive divisor
     q = a / b
     r = a % b
     return z3.If(z3.And(b < 0, r != 0), q - 1, q)
 
 
 def pymod_int(a, b):
+    if z3.is_int_value(z3.simplify(b)) and z3.simplify(b).as_long() > 0:
+        sp = split_multiple(a, z3.simplify(b).as_long())
+        if sp is not None:
+            return z3.IntVal(sp[1])
+        return a % b
     return a - b * floordiv_int(a, b)
 
 
@@ -266,6 +296,29 @@ class Executor:
 
     def oblige(self, label, formula, kind='V', origin=''):
         self.path.obligations.append(Obligation(label, self.path.pc, formula, kind, origin))
+
+    def unique_value(self, v: Val):
+        """If the int-valued v has exactly one value under the path condition, return it
+        as a concrete VInt (solver-aided concretisation), else None."""
+        t = as_int_term(v)
+        if t is None:
+            return None
+        c = VInt(t).conc
+        if c is not NOTCONC:
+            return VInt(c)
+        self.solver.push()
+        try:
+            for c in self.path.pc:
+                self.solver.add(c)
+            if self.solver.check() != z3.sat:
+                return None
+            val = self.solver.model().eval(t, model_completion=True)
+            self.solver.add(t != val)
+            if self.solver.check() == z3.unsat:
+                return VInt(val.as_long())
+            return None
+        finally:
+            self.solver.pop()
 
     def fresh(self, base, sort):
         self.fresh_count += 1
@@ -885,6 +938,10 @@ class Executor:
         if isinstance(obj, (VTuple, VPyList)):
             c = idx.conc
             if c is NOTCONC:
+                u = self.unique_value(idx)
+                if u is not None:
+                    c = u.conc
+            if c is NOTCONC:
                 it = as_int_term(idx)
                 if it is None:
                     raise OutOfSubset('symbolic non-int index')
@@ -1003,7 +1060,10 @@ class Executor:
         if isinstance(v, VRange):
             lo, hi, st = v.lo.conc, v.hi.conc, v.step.conc
             if NOTCONC in (lo, hi, st):
-                raise OutOfSubset('iteration over a symbolic range without invariant')
+                u = [self.unique_value(x) for x in (v.lo, v.hi, v.step)]
+                if None in u:
+                    raise OutOfSubset('iteration over a symbolic range without invariant')
+                lo, hi, st = (x.conc for x in u)
             return [VInt(x) for x in range(lo, hi, st)]
         if isinstance(v, VDictC):
             return [lift(k) for k in v.d]
@@ -1510,6 +1570,10 @@ class Executor:
         it = self.eval(node.iter, env)
         ordinal = self.loop_ordinal(node)
         spec = self.loops.get(ordinal)
+        if isinstance(it, VRange) and NOTCONC in (it.lo.conc, it.hi.conc, it.step.conc) and spec is None:
+            u = [self.unique_value(x) for x in (it.lo, it.hi, it.step)]
+            if None not in u:
+                it = VRange(*u)
         if isinstance(it, VRange) and NOTCONC in (it.lo.conc, it.hi.conc, it.step.conc) or isinstance(it, VSeq):
             if spec is None:
                 raise OutOfSubset(f'for loop at line {node.lineno} over a symbolic sequence needs an invariant')
